@@ -1037,14 +1037,19 @@ def known_signature(case, r, pred):
 
 # --------------------------------------------------------------------------- the check
 UNPROVED = [
-    'premises of C02_no_wrap_float_platform not discharged: scaled thresholds p_mn/p_mx are non-NaN; with nan2zero off the '
-    'scaled element is not NaN (simple IEEE facts for finite non-zero slope and finite intercept)',
-    'C02_read_error_real is over the rounding operator RN64; its identification with the binary64 operations of the '
-    'reload (no overflow; exact int32/float32 -> binary64 conversion) is not proved',
-    'C02_float_gap_partial: NOT PROVED - that the exact float pipeline (float32 rounding of slope and intercept, '
-    'working-precision subtraction/division, float64/float32 reload) stays within the stated allowance of the '
-    'ideal (rational) pipeline; it is measured on every case by the direct predicate and the float layer is '
-    'tied to the implementation bit for bit',
+    'C02_float_gap (general statement): NOT PROVED - that every finite element of the exact float pipeline reloads '
+    'within |slope|/2 + the stated allowance of its value (false for subnormal stored slopes, finding S-C02c). '
+    'Proved pieces: C02_no_wrap_float / _platform / _inputs (no wrap in the float layer, hypotheses on the inputs '
+    'only), C02_reload_is_rounding (binary64 reload = RN(RN(raw*slope)+inter) for |raw| < 2^53, float32 slope/inter), '
+    'C02_read_error_real and C02_float_gap_real_partial (rounding-operator bounds: read side; write+read in the '
+    'slope-only branch inside the clip range). Missing: (a) identification of the WRITE side (Bminus/Bdiv in the '
+    'float32, binary64 and longdouble working formats, element conversions) with the rounding operator under '
+    'no-overflow guards; (b) the error of the float32 rounding of slope and intercept against the ideal values of '
+    '_range_scale; (c) the intercept branch (cancellation in x - inter) and clipped elements; (d) turning the ulp '
+    'terms into the stated allowance. Measured on every case by the direct predicate; the float layer is tied to '
+    'the implementation bit for bit',
+    'C02_reload_is_rounding covers the NIfTI route (binary64 reload) only; the float32 reload of SPM99 and the '
+    'longdouble fallback of int_scinter_ftype are modelled and compared, not analysed',
     'NumPy rint / clip / astype / int->float conversions are modelled (Flocq Bnearbyint, Bcompare, binary_normalize) '
     'and compared bit for bit, not verified',
 ]
